@@ -58,12 +58,15 @@ def expectedTetraplets (v : Value) (e : ProvEnv) : Option (List Tetraplet) :=
   | .canonMap n => e.canonMap n
   | .canonMapWL _ _ => none
 
-/-- arguments for which the property's wording is unambiguous and which the executor model covers
-(canon streams as a whole are covered; lenses into canon streams and canon maps are not modelled yet) -/
+/-- arguments for which the property's wording is unambiguous (canon streams and canon maps as a whole are
+covered; for lenses into canon streams / canon maps the wording and the code differ — a canon-stream lens
+`#c.$.[i].rest` hands out the element's tetraplet WITHOUT the rest of the lens, a canon-map lens rewrites the
+lens field — so they are specified by the model functions `canonStreamApplyLambda` / `canonMapLensTetraplet`
+and compared with the implementation by the correspondence runs instead) -/
 def Covered : Value → Bool
   | .scalarWL _ l => !isFunctor l
   | .error (some _) | .lastError (some _) => false
-  | .canonWL .. | .canonMap _ | .canonMapWL .. => false
+  | .canonWL .. | .canonMapWL .. => false
   | _ => true
 
 /-- arguments the property speaks about at all (everything but functors) -/
@@ -106,10 +109,16 @@ def canonTetraplets (c : Ctx) (n : String) : Option (List Tetraplet) :=
   | .ok cs => some (cs.canonStream.values.map (·.tetraplet))
   | _ => none
 
+/-- the tetraplets of the key-value pairs of a bound canon map, in map (insertion) order -/
+def canonMapTetraplets (c : Ctx) (n : String) : Option (List Tetraplet) :=
+  match c.scalars.getCanonMap n with
+  | .ok cm => some (cm.canonStreamMap.values.map (·.tetraplet))
+  | _ => none
+
 def prov (c : Ctx) : ProvEnv :=
   { initPeer := c.initPeerId, scalar := scalarTetraplet c,
     error := c.error.error.tetraplet, lastError := c.lastError.error.tetraplet,
-    canon := canonTetraplets c }
+    canon := canonTetraplets c, canonMap := canonMapTetraplets c }
 
 /-! ## what the code does where the property is silent -/
 
